@@ -202,10 +202,11 @@ Print Assumptions c31_packet_once_within_sample.
    raises a fault when a loop runs out of fuel, when the Go code would
    dereference a nil slot, or when a sample is built although the active window
    was empty after extending its tail (then fetchTimestamp has no data and the
-   Go code uses timestamp 0).  No fault was ever raised in the correspondence
-   runs (the flag is part of every compared observation); fault-freedom of all
-   histories is not proved (the purge loop's and, for non-empty windows, the
-   scan's fuel are: c31_purge_fuel_suffices, c31_loop_fuel_suffices). *)
+   Go code uses timestamp 0).  The guard is discharged for the configurations of
+   c31_no_fault_partial (c31_sample_wellformed_partial below) and cannot be dropped
+   in general (c31_no_fault_refuted and its two companions: samples with
+   PacketTimestamp 0).  The flag is part of every compared observation of the
+   correspondence runs. *)
 Theorem c31_sample_timestamp_partial : forall is_head is_tail unmarshal c ops x,
   history_ok ops ->
   fault (fst (run is_head is_tail unmarshal c ops)) = 0 ->
